@@ -257,6 +257,44 @@ pub fn all_small(e: &Vec<i64>) -> (r: bool) ensures r ==> forall|i: int| 0 <= i 
         if not ok:
             out["violations"].append({"obligation": "c07::" + name, "kind": "wiring / documentation check failed", "where": "rust/calendars/named/mod.rs", "code": detail,
                                       "verifier_output": "", "counterexample": {"input": detail, "holds": False}, "item": None, "unit": "c07"})
+    # ---- translation validation of the extraction: the runtime calendars agree with the extracted tables on every day
+    try:
+        tj = {}
+        for n in wiring:
+            h = wired(n, "HOLIDAYS")
+            w = wired(n, "WEEKMASK")
+            if h is not None and w is not None:
+                tj[n] = {"holidays": sorted(set(h)), "mask": list(w)}
+        tpath = os.path.join(ROOT, "build", "c07_tables.json")
+        json.dump(tj, open(tpath, "w"))
+        env = dict(os.environ, CARGO_NET_OFFLINE="true")
+        b = subprocess.run(["cargo", "build", "--release", "--offline"], cwd=os.path.join(ROOT, "replay"), capture_output=True, text=True, timeout=1800, env=env)
+        binr = os.path.join(ROOT, ".cache", "target-replay", "release", "vx-replay")
+        if b.returncode != 0 or not os.path.exists(binr):
+            out["undecided"].append("replay crate does not build against /repo: " + b.stderr[-400:])
+        else:
+            t2 = time.time()
+            r2 = subprocess.run([binr, "calsweep", tpath], capture_output=True, text=True, timeout=900)
+            out["solver_s"]["native-exec"] = time.time() - t2
+            out["cmds"].append(f"{binr} calsweep {tpath}")
+            rec = None
+            for line in r2.stdout.split("\n"):
+                if line.strip().startswith("{"):
+                    try:
+                        rec = json.loads(line.strip())
+                    except Exception:  # noqa
+                        pass
+            nm = "c07::runtime_calendars_agree_with_extracted_tables"
+            if rec is None:
+                out["undecided"].append("calsweep produced no result: " + r2.stderr[-300:])
+            elif rec.get("holds") is True:
+                out["obligations"].append({"name": nm, "backend": "native-exec", "tier": "X(exhaustive native sweep: %d evaluations)" % rec.get("evaluations", 0), "status": "discharged", "ms": int((time.time() - t2) * 1000)})
+            else:
+                out["obligations"].append({"name": nm, "backend": "native-exec", "tier": "X", "status": "failed", "ms": 0})
+                out["violations"].append({"obligation": nm, "kind": "the calendar object built at run time disagrees with the tables in the sources", "where": "rust/calendars/named/mod.rs, rust/calendars/calendar.rs",
+                                          "code": "", "verifier_output": "", "counterexample": rec, "item": None, "unit": "c07"})
+    except Exception as e:  # noqa
+        out["undecided"].append("calsweep failed: " + repr(e))
     out["trusted"] += [
         "c07: published rule sets transcribed into c07/template.rs from RULES / <x>_script.py (pandas Holiday semantics: sunday_to_monday, nearest_workday, next_monday, next_monday_or_tuesday, n-th weekday offsets, start/end dates)",
         "c07: anonymous Gregorian computus for Easter; Hinnant civil-from-days arithmetic (the spec functions ARE these formulas)",
